@@ -124,7 +124,7 @@ def run(ctx):
             p = os.path.join(ctx.work, "selftest.ndjson")
             hc.write_blocks(p, {u[1]: lines})
             _, acc = hc.validate(ctx, p, (), "selftest-corrupt-cut")
-            rejected = not any(a[0] == "c" for a in acc)
+            rejected = ("c", u[1], u[2], 1) not in hc.accepted_units({u[1]: lines}, acc)
             ctx.extra["selftest_corrupt_cut_rejected"] = rejected
             if not rejected:
                 raise vlib.Inconclusive("binding self-test failed: a cut with a lost durable record was accepted")
